@@ -29,3 +29,10 @@ Proof.
   apply andb_true_iff in E as [E1 E2].
   destruct (Reqb_spec ar br); [|discriminate]. destruct (Reqb_spec ai bi); [|discriminate]. congruence.
 Qed.
+Lemma R_eqb_refl : forall a : R, neqb a a = true.
+Proof. intros a; numR; destruct (Reqb_spec a a); [reflexivity|congruence]. Qed.
+Lemma RC_eqb_refl : forall a : RC, neqb a a = true.
+Proof.
+  intros [ar ai]; cbn [neqb Num_RC]; unfold rc_eqb; cbn [fst snd].
+  destruct (Reqb_spec ar ar); [|congruence]. destruct (Reqb_spec ai ai); [reflexivity|congruence].
+Qed.
